@@ -298,6 +298,14 @@ pub fn main(args: &[String]) -> i32 {
         let hugemax = o.num("hugemax", 0u32) == 1;
         // --hugemax: every third step is a put (of the largest sizes), the step after it a flush
         let r = if hugemax && step % 3 == 0 { 0 } else if hugemax && step % 3 == 1 { 74 } else { rng.random_range(0..100) };
+        // --hugepair: a cycle that fills three neighbouring large extents, acknowledges them, deletes the first two (their
+        // retired runs merge into one long free run headed by the first one's retirement marker), acknowledges that, and
+        // writes a large record again: where in the merged run it is placed decides whether stale markers stay in front of it
+        let hugepair = o.num("hugepair", 0u32) == 1 && keys.len() >= 3;
+        let (ki, r) = if hugepair {
+            match step % 9 { 0 => (0, 0), 1 => (1, 0), 2 => (2, 0), 4 => (0, 50), 5 => (1, 50), 7 => (2, 0), _ => (ki, 74) }
+        } else { (ki, r) };
+        let (key, kid) = if hugepair { (keys[ki].clone(), ki + 1) } else { (key, kid) };
         let call_idx = calls.len() as u64;
         if r < 45 {
             // put (plain, TTL, explicit lower/higher timestamp, ghost-embedding value)
